@@ -7,6 +7,7 @@ import (
 	"testing"
 
 	biscuit "github.com/biscuit-auth/biscuit-go/v2"
+	"github.com/biscuit-auth/biscuit-go/v2/datalog"
 	"pgregory.net/rapid"
 
 	"verif/internal/bridge"
@@ -182,6 +183,20 @@ func checkC09(c C09Case, rec *obs.Recorder) *obs.Violation {
 	if d := base.diff(sres); d != "" {
 		return obs.Violf("token %s: sealed and unsealed twins differ: %s", desc, d)
 	}
+	// "for every authorizer": also one created with options of its own (a fact limit of 1 here)
+	{
+		lim := biscuit.WithWorldOptions(datalog.WithMaxFacts(1), datalog.WithMaxDuration(bridge.LongDuration))
+		aT, eT := T.AuthorizerFor(biscuit.WithSingularRootPublicKey(pub), lim)
+		aS, eS := S.AuthorizerFor(biscuit.WithSingularRootPublicKey(pub), lim)
+		if eT != nil || eS != nil {
+			return obs.Violf("token %s: verification with options: unsealed %v, sealed %v", desc, eT, eS)
+		}
+		bridge.AddAuthz(aT, c.Panel[0])
+		bridge.AddAuthz(aS, c.Panel[0])
+		if oT, oS := bridge.Authorize(aT), bridge.Authorize(aS); oT.Class != oS.Class {
+			return obs.ViolK("options", "token %s, authorizer {%s} created with a fact limit of 1: the unsealed token gives %s, the sealed token %s", desc, c.Panel[0].Text(), oT, oS)
+		}
+	}
 	// "verifies under the same root key": also when the verifier selects the key by identifier
 	if !sameID(T.RootKeyID(), S.RootKeyID()) {
 		return obs.ViolK("keyid", "token %s created with root key id %s: the sealed token reports %s", desc, idText(T.RootKeyID()), idText(S.RootKeyID()))
@@ -323,7 +338,7 @@ func drawC09(t *rapid.T) C09Case {
 func TestC09(t *testing.T) {
 	rec := obs.New("C09")
 	defer rec.Flush(true)
-	rec.SetExtra("rule", "rapid: goal-directed token (authority + 0-3 later blocks; with or without a root key id, 0 included; sometimes composed over a custom base symbol table; in half of the cases received as bytes before sealing, half of those bytes written and signed by the independent encoder in another valid encoding: empty context omitted) T, S = T.Seal(), a panel of 4 generated authorizers and 2 queries, reload of S, and one of 15 sealed-envelope mutations (seal signature extended by 1-3 bytes / shortened / written twice,seal replaced by a 64-byte secret whose second half is the announced key, seal signature bits, last block / announced key / signature bits, seal from another sealed token of the same or another issuer, seal replaced by a secret, attacker seal, seal computed without the last signature, last block dropped, last two swapped, attacker block appended). Oracle: S verifies under the same root; outcome class and query results of S and of reloaded S equal those of T for every panel member; revocation ids equal; Append and Seal on S and on reloaded S return an error and no token; the mutated envelope is rejected, in agreement with the reference chain walk. Non-trivial = T has >= 1 later block and the panel has both an allowed and a refused member; distinct by (token, panel, mutation).")
+	rec.SetExtra("rule", "rapid: goal-directed token (authority + 0-3 later blocks; with or without a root key id, 0 included; sometimes composed over a custom base symbol table; in half of the cases received as bytes before sealing, half of those bytes written and signed by the independent encoder in another valid encoding: empty context omitted) T, S = T.Seal(), a panel of 4 generated authorizers and 2 queries, reload of S, and one of 15 sealed-envelope mutations (seal signature extended by 1-3 bytes / shortened / written twice,seal replaced by a 64-byte secret whose second half is the announced key, seal signature bits, last block / announced key / signature bits, seal from another sealed token of the same or another issuer, seal replaced by a secret, attacker seal, seal computed without the last signature, last block dropped, last two swapped, attacker block appended). Oracle: S verifies under the same root; an authorizer created with a fact limit of 1 gives the same class on T and on S; outcome class and query results of S and of reloaded S equal those of T for every panel member; revocation ids equal; Append and Seal on S and on reloaded S return an error and no token; the mutated envelope is rejected, in agreement with the reference chain walk. Non-trivial = T has >= 1 later block and the panel has both an allowed and a refused member; distinct by (token, panel, mutation).")
 	rec.SetExtra("assumptions", []string{"crypto/ed25519 trusted", "equality between sealed and unsealed twins is asserted on every generated case, whatever its verdict"})
 	harness.RunWith(t, harness.Spec[C09Case]{ID: "C09", Draw: drawC09, Check: checkC09}, rec)
 }
